@@ -456,6 +456,10 @@ pub fn run(case: &J) -> J {
             let func = program.value_to_thunk(&value);
             value = program.eval_call(&func, &[], &tla, &mut cb)?;
         }
+        if case.get("hold_gc").and_then(|h| h.as_bool()).unwrap_or(false) {
+            // a collection while the caller holds nothing but the request's value
+            program.gc();
+        }
         match manifest.as_str() {
             "multi" => Ok(J::String(program.manifest_json(&value, true)?)),
             "single" => Ok(J::String(program.manifest_json(&value, false)?)),
